@@ -261,7 +261,7 @@ def run_shard(acc, shard, nshards, seed, tier):
         return dict(key=c, nontrivial=nt, classes=sorted(flags) + [f"lev:{'1' if c['lev'] == 1 else '2-10' if c['lev'] <= 10 else '11-125'}", 'long' if c['long'] else 'short',
                                                                    'averaged-entry' if len(c['fills']) > 1 else 'single-entry', f"resting={len(c['rest'])}", 'chunk' if c['chunk'] > 1 else 'minute'],
                     violations=vios, sub='constructed-boundary', sample=c if nt else None)
-    runner.hyp_search(acc, cases(), chk, 150 if tier == 'quick' else 5000, seed, tier, known=known, shrink_calls=60)
+    runner.hyp_search(acc, cases(), chk, 250 if tier == 'quick' else 5000, seed, tier, known=known, shrink_calls=60)
 
     iso = sessions.session(minutes=(60, 200) if tier == 'quick' else (60, 400), kinds=('futures',), modes=('isolated',), leverages=(5, 10, 20, 50, 100, 125),
                            max_data=0, warmup=(False,), align_len=True, program=dict(busy=True, hold=True, cycle=True), structural=False)
@@ -274,5 +274,5 @@ def run_shard(acc, shard, nshards, seed, tier):
         return dict(key=(spec['cfg'], spec['scripts'], spec['candles'], spec['fast']), nontrivial=nt, classes=['session:' + f for f in sorted(flags)] + ['session:' + ('fast' if spec['fast'] else 'step')],
                     violations=vios, sub='sessions',
                     sample=dict(cfg=spec['cfg'], routes=spec['routes'], minutes=spec['n'], fast=spec['fast'], liquidations=(r['final'] or {}).get('total_liquidations')) if nt else None)
-    runner.hyp_search(acc, iso, chk_s, 10 if tier == 'quick' else 800, seed + 1, tier, known=known, shrink_calls=12, max_shrink_sigs=1, describe=lambda s: dict(kind='session', spec=s))
-    runner.hyp_search(acc, ctl, chk_s, 4 if tier == 'quick' else 200, seed + 2, tier, known=known, shrink_calls=8, max_shrink_sigs=1, describe=lambda s: dict(kind='session', spec=s))
+    runner.hyp_search(acc, iso, chk_s, 20 if tier == 'quick' else 800, seed + 1, tier, known=known, shrink_calls=12, max_shrink_sigs=1, describe=lambda s: dict(kind='session', spec=s))
+    runner.hyp_search(acc, ctl, chk_s, 6 if tier == 'quick' else 200, seed + 2, tier, known=known, shrink_calls=8, max_shrink_sigs=1, describe=lambda s: dict(kind='session', spec=s))
